@@ -134,7 +134,9 @@ def view(a: NDArr, n=None):
     data = a.data
     n = a.length if n is None else n
     n = C.mk(n) if isinstance(n, z3.ExprRef) else n
-    return Tensor((n,), lambda i: z3.Select(data, C.to_z3(i)), a.elem_sort)
+    t = Tensor((n,), lambda i: z3.Select(data, C.to_z3(i)), a.elem_sort)
+    t.np_strict = True
+    return t
 
 
 def new_ndarr(E, length, sort, data=None, dtype="float", payload_shape=(), tag="arr"):
@@ -172,7 +174,12 @@ def np_empty(E, shape, dtype=None):
         if isinstance(n, Sym):
             if E.st.branch(n < 0):
                 raise PyRaise("ValueError", "negative dimensions are not allowed")
-        sort = VAL
+        if rest:
+            sort = VAL  # slots holding opaque payloads
+        else:
+            sort = INT if tag in ("int", "int32", "int64") else (BOOL if tag == "bool" else REAL)
+            if E.shared.__dict__.get("scalar_payloads_opaque", True) and _in_buffer_code(E) and not _in_priority_code(E):
+                sort = VAL
         return new_ndarr(E, n, sort, dtype=tag, payload_shape=rest, tag="empty")
     raise Unsupported("np.empty shape")
 
@@ -187,6 +194,11 @@ def np_zeros(E, shape, dtype=None):
         return new_ndarr(E, shape[0], sort, data=z3.K(INT, zero), dtype=tag, tag="zeros")
     sort = INT if tag.startswith("int") else REAL
     return T.full(shape, 0 if sort == INT else Fraction(0), sort)
+
+
+def _in_priority_code(E):
+    node, fr = E.cur_call
+    return fr is not None and "PriorityBuffer" in fr.qualname
 
 
 def _in_buffer_code(E):
@@ -285,12 +297,24 @@ def _getitem(E, v, idx):
             return _getitem(E, v, idx[0])
         raise Unsupported(f"ndarray index {type(idx).__name__}")
     if isinstance(v, Tensor):
-        if isinstance(idx, Sym) and idx.z.sort() == INT or isinstance(idx, int):
-            d = v.shape[0] if v.shape else None
-            if d is None:
-                raise PyRaise("IndexError", "too many indices for array")
-            if isinstance(idx, Sym):
-                E.note_index(idx, d)
+        if v.np_strict:
+            tup = idx if isinstance(idx, tuple) else (idx,)
+            ax = 0
+            for i in tup:
+                if i is None:
+                    continue
+                if ax >= v.ndim:
+                    raise PyRaise("IndexError", "too many indices for array")
+                if (isinstance(i, Sym) and i.z.sort() == INT) or (isinstance(i, int) and not isinstance(i, bool)):
+                    d = v.shape[ax]
+                    if not (isinstance(i, int) and isinstance(d, int)):
+                        dz = T.dim_z(d)
+                        iz = C.as_int(i)
+                        inb = z3.And(iz >= -dz, iz < dz)
+                        if E.may(z3.Not(inb)):
+                            if not E.st.branch(inb):
+                                raise PyRaise("IndexError", "index out of bounds")
+                ax += 1
         return T.index(v, idx)
     return NotImplemented
 
@@ -398,7 +422,30 @@ def cumsum(E, a: Tensor):
     E.st.assume_forall([INT], lambda i: z3.Implies(z3.And(i >= 1, i < nz), cs(i) == cs(i - 1) + x(i)), "cumsum.step")
     t = Tensor((n,), lambda i: cs(C.to_z3(i)), sort)
     t.cumsum_of = a
+    t.cs = cs
+    t.np_strict = True
+    # Lemma cumsum_mono (lemmas/SumLemmas.lean), applied automatically when its
+    # premise (all summands >= 0) is provable in the current state.
+    from ..state import prove
+    sk = E.st.fresh("cs_i", INT)
+    prem = z3.Implies(z3.And(sk >= 0, sk < nz), x(sk) >= 0)
+    v, *_ = prove(E.st.pc, E.st.qfacts, prem, extra_pool=list(E.st.pool) + [sk], timeout_ms=4000, quick=True)
+    t.monotone = v == "unsat"
+    E.st.ghost["last_cumsum"] = t
+    if t.monotone:
+        E.st.assume_forall([INT, INT], lambda i, j: z3.Implies(z3.And(i >= 0, i <= j, j < nz), cs(i) <= cs(j)), "cumsum.monotone")
     return t
+
+
+def cumsum_monotone(E, t, name="cumsum.monotone"):
+    """Lemma (lemmas/SumLemmas.lean: cumsum_mono): if every summand is >= 0
+    then the cumulative sum is non-decreasing.  The premise is an obligation;
+    the conclusion is then assumed."""
+    a = t.cumsum_of
+    n = T.dim_z(a.shape[0])
+    cs = t.cs
+    E.st.oblige_forall(f"{name}.premise_nonneg", [INT], lambda i: z3.Implies(z3.And(i >= 0, i < n), C.as_num(a.at(i)) >= 0), hint="i")
+    E.st.assume_forall([INT, INT], lambda i, j: z3.Implies(z3.And(i >= 0, i <= j, j < n), cs(i) <= cs(j)), name)
 
 
 @LIB.fn("numpy.searchsorted", doc="numpy.searchsorted(a, v, side='left'): i with a[i-1] < v <= a[i]")
@@ -428,6 +475,8 @@ def np_searchsorted(E, a, v, side="left"):
 
     E.st.assume_forall([INT] * (k + 1), spec, "searchsorted")
     out = Tensor(vt.shape, lambda *q: res(*q), INT)
+    out.np_strict = True
+    E.st.ghost["last_searchsorted"] = out
     return T.unwrap0(out)
 
 
@@ -499,6 +548,7 @@ def _generator(E, obj, name):
             t = T.fresh_tensor("randint", shape, INT, is_input=True)
             k = len(shape)
             E.st.assume_forall([INT] * k, lambda *q: z3.And(C.as_int(t.at(*q)) >= C.as_int(low), C.as_int(t.at(*q)) < C.as_int(high)), "integers.range")
+            E.st.ghost["last_integers"] = t
             return t
         return Builtin("Generator.integers", f)
     if name == "uniform":
@@ -516,6 +566,9 @@ def _generator(E, obj, name):
             res = T.elementwise(lambda uu, lo, hi: C.binop("+", lo, C.binop("*", uu, C.binop("-", hi, lo))), u, lt, ht)
             if isinstance(res, Tensor):
                 res.unit = u
+            E.st.ghost["last_uniform_unit"] = u
+            E.st.ghost["last_uniform_bounds"] = (lt, ht)
+            E.st.ghost["last_uniform_points"] = res
             return res
         return Builtin("Generator.uniform", f)
     if name == "choice":
